@@ -376,11 +376,11 @@ func corpusC12() []c12Case {
 // ---------------------------------------------------------------------------------------
 
 type c12Obs struct {
-	Rets      []int      // 0 ok, 1 too large, 2 other error
+	Rets      []int // 0 ok, 1 too large, 2 other error
 	RetTxt    []string
-	Payloads  [][]byte   // EDF bytes of every value (harness' own encoding)
-	ResultPay [][]byte   // EDF bytes of the custom error the receiving core answers with
-	RawRef0   []uint64   // bytes 17..25 of the frame as found on the wire (kinds where they may be stale)
+	Payloads  [][]byte // EDF bytes of every value (harness' own encoding)
+	ResultPay [][]byte // EDF bytes of the custom error the receiving core answers with
+	RawRef0   []uint64 // bytes 17..25 of the frame as found on the wire (kinds where they may be stale)
 	TapAB     [][]byte
 	ChunksAB  [][]int
 	TapBA     [][]byte
